@@ -124,7 +124,25 @@ def _closures_for_callable_classes(prog: Program) -> Program:
         if ci.qualname in known_classes or ci.outer is not None:
             continue
         names = set(ci.methods)
-        if names != {'__init__', '__call__'} or ci.bases and any(getattr(b, 'qualname', b) not in ('object',) for b in ci.bases):
+        if ci.bases and any(getattr(b, 'qualname', b) not in ('object',) for b in ci.bases):
+            continue
+        if names == {'__call__'} and ci.node.decorator_list and \
+                all((dotted(d.func if isinstance(d, ast.Call) else d) or '').rsplit('.', 1)[-1] == 'dataclass' for d in ci.node.decorator_list):
+            # the same thing written as a dataclass: the generated __init__ stores each field under its own name
+            call = ci.methods['__call__']
+            fields = [st.target.id for st in ci.node.body if isinstance(st, ast.AnnAssign) and isinstance(st.target, ast.Name) and st.value is None]
+            other = [st for st in ci.node.body if not (isinstance(st, ast.AnnAssign) and st.value is None) and st is not call.node and
+                     not (isinstance(st, ast.Expr) and isinstance(st.value, ast.Constant)) and not isinstance(st, ast.Pass)]
+            selfn = call.node.args.args[0].arg if call.node.args.args else None
+            if other or call.decorators or not fields or selfn is None:
+                continue
+            uses = [x for x in ast.walk(call.node) if isinstance(x, ast.Attribute) and isinstance(x.value, ast.Name) and x.value.id == selfn]
+            n_self = sum(1 for x in ast.walk(call.node) if isinstance(x, ast.Name) and x.id == selfn)
+            if n_self != len(uses) or any(u.attr not in fields or not isinstance(u.ctx, ast.Load) for u in uses):
+                continue
+            cands[ci.name] = (ci, fields, {f_: f_ for f_ in fields}, call, selfn)
+            continue
+        if names != {'__init__', '__call__'}:
             continue
         init, call = ci.methods['__init__'], ci.methods['__call__']
         if call.decorators or init.decorators:
@@ -188,13 +206,19 @@ def _closures_for_callable_classes(prog: Program) -> Program:
                 while i < len(stmts):
                     st = stmts[i]
                     v = getattr(st, 'value', None) if isinstance(st, (ast.Return, ast.Assign)) else None
-                    if isinstance(v, ast.Call) and isinstance(v.func, ast.Name) and v.func.id in cands and not v.keywords and \
-                            not any(isinstance(a, ast.Starred) for a in v.args):
+                    if isinstance(v, ast.Call) and isinstance(v.func, ast.Name) and v.func.id in cands and \
+                            not any(isinstance(a, ast.Starred) for a in v.args) and all(k.arg is not None for k in v.keywords):
                         ci, params, stores_, call, selfn = cands[v.func.id]
-                        if len(v.args) == len(params) and all(isinstance(a, ast.Name) and (a.id in fparams and not nstores.get(a.id) or
-                                                                                            nstores.get(a.id) == 1 and a.id not in fparams)
-                                                              for a in v.args):
-                            bind = dict(zip(params, v.args))
+                        bind = dict(zip(params, v.args))
+                        for k in v.keywords:
+                            if k.arg in params and k.arg not in bind:
+                                bind[k.arg] = k.value
+                            else:
+                                bind['?'] = k.value
+                        given_ = list(bind.values())
+                        if set(bind) == set(params) and all(isinstance(a, ast.Name) and (a.id in fparams and not nstores.get(a.id) or
+                                                                                         nstores.get(a.id) == 1 and a.id not in fparams)
+                                                            for a in given_):
                             nd = copy.deepcopy(call.node)
                             if nd.args.posonlyargs:
                                 nd.args.posonlyargs = nd.args.posonlyargs[1:]
@@ -213,7 +237,7 @@ def _closures_for_callable_classes(prog: Program) -> Program:
                             # a local of __call__ that shadows a captured name would change its meaning
                             local_st = {y.id for y in ast.walk(nd) if isinstance(y, ast.Name) and isinstance(y.ctx, ast.Store)} | \
                                 {p.arg for p in list(nd.args.args) + list(nd.args.kwonlyargs) + list(nd.args.posonlyargs)}
-                            if local_st & {a.id for a in v.args}:
+                            if local_st & {a.id for a in given_}:
                                 i += 1
                                 continue
                             ast.copy_location(nd, st)
